@@ -81,6 +81,8 @@ class Gen:
         self.inf_constant_hazard = False
         self.annotate_stringlist = False
         self.no_methods = False
+        self.void_path_hazard = False
+        self.has_void_path = False
 
     # ---- helpers
     def feat(self, f):
@@ -639,6 +641,19 @@ class Gen:
     def tail(self, t, kind, depth):
         """Statements after which every path has produced a value of type t."""
         rng = self.rng
+        if self.void_path_hazard and rng.random() < 0.12:
+            # ILL-TYPED on purpose: this path ends without a value (must be rejected; if it is accepted anyway the
+            # monitors see a value function with a reachable void return)
+            self.feat("hazard:void-path")
+            self.has_void_path = True
+            r = rng.random()
+            if r < 0.4:
+                return []
+            if r < 0.7:
+                lt = rng.choice((INT, BOOL))
+                return [N("let", VOID, (self.expr(lt, 2),), v=(self.fresh(), lt, False, False))]
+            c = self.expr(BOOL, 2)
+            return [N("if", VOID, (c, [N("exprstmt", t, (self.expr(t, 2),))], None))]
         if depth >= 2 or kind == "block":
             if rng.random() < 0.5:
                 self.feat("completion-value")
@@ -674,7 +689,17 @@ class Gen:
         ncase = rng.randint(1, 4)
         labels = []
         for _ in range(ncase):
-            lab = self.lit(st) if rng.random() < 0.8 else self.expr(st, 3)
+            r = rng.random()
+            if r < 0.65:
+                lab = self.lit(st)
+            elif r < 0.8:
+                lab = self.expr(st, 3)
+            else:
+                # a label whose evaluation spans several basic blocks
+                self.feat("switch:label-with-branch")
+                lab = N("tern", st, (self.expr(BOOL, 2), self.expr(st, 3), self.expr(st, 3)))
+                if uint_kind(lab) != "concrete" and st == UINT:
+                    lab = self.lit(st)
             labels.append(lab)
         has_default = rng.random() < 0.8
         dpos = rng.randint(0, ncase) if has_default else None
@@ -721,6 +746,12 @@ class Gen:
         self.locals.pop()
         self.hidden -= set(declared_here)
         out = [N("switch", VOID, (subject, labels, dpos, [b for _, b in bodies]))]
+        if self.void_path_hazard and has_default and any(k == "break" for k, _ in bodies) and rng.random() < 0.3:
+            # ILL-TYPED on purpose: code reachable only through `break` that ends without a value
+            self.feat("hazard:void-after-break")
+            self.has_void_path = True
+            out.append(N("let", VOID, (self.expr(INT, 2),), v=(self.fresh(), INT, False, False)))
+            return out
         if not has_default:
             # the no-match path leaves the switch without a value: code that yields one must follow
             out.append(N("return", t, (self.expr(t, 2),)) if rng.random() < 0.5 else N("exprstmt", t, (self.expr(t, 2),)))
